@@ -18,7 +18,9 @@ def check(run, pid, cmd, rule, extra_cmds=()):
         if rc != 0:
             raise RuntimeError("harness %s failed: %s" % (ec, out[-2000:]))
         for v in (st.get("violations") or []):
-            run.violation(v.get("key", "impl:" + v.get("what", "")[:80]), dict(kind="implementation", **v), True)
+            d = dict(v)
+            d["check_kind"] = "implementation"
+            run.violation(v.get("key", "impl:" + v.get("what", "")[:80]), d, True)
         drv, _ = kv.build_driver()
         kv.run_driver(sub, drv)
         n, mism = kv.compare_lines(os.path.join(sub.workdir, "go.txt"), os.path.join(sub.workdir, "model.txt"), os.path.join(sub.workdir, "cases.txt"))
